@@ -29,6 +29,18 @@ const MAX_MACRO_DEPTH: usize = 64;
 /// several times multiply, a few lines give millions of expansions
 const MAX_MACRO_EXPANSIONS: usize = 1 << 18;
 
+/// Places of messages of macro calls of one level (the source or body of one macro):
+/// messages of a call are issued when it is expanded, after the text around the call
+/// is parsed, and are moved to the place of the call
+struct CallPlaces {
+    /// index of the first call of this level in `messages_before_calls`
+    first: usize,
+    /// count of calls of this level which are expanded already
+    done: usize,
+    /// count of messages which were moved to places of these calls
+    moved: usize,
+}
+
 #[derive(Clone, PartialEq, Eq, Debug)]
 pub struct BuildResultPass0 {
     // collect of segments
@@ -112,13 +124,18 @@ pub fn build_pass_0(
         messages: Rc::new(RefCell::new(parsed.messages)),
     };
 
+    let mut places = CallPlaces {
+        first: 0,
+        done: 0,
+        moved: 0,
+    };
     for segment in parsed.segments {
         context.add_segment(Segment {
             address: segment.address,
             t: segment.t,
             items: vec![],
         });
-        pass0_internal(segment.clone(), &context, &parsed.macroses)?;
+        pass0_internal(segment.clone(), &context, &parsed.macroses, &mut places)?;
     }
 
     Ok(context.as_pass0_result())
@@ -128,6 +145,7 @@ fn pass0_internal(
     segment: Segment,
     context: &Pass0Context,
     macroses: &HashMap<String, Vec<(CodePoint, String)>>,
+    places: &mut CallPlaces,
 ) -> Result<(), Error> {
     for (line, item) in segment.items.iter() {
         match item {
@@ -148,19 +166,41 @@ fn pass0_internal(
                             line
                         );
                     }
+                    let calls = &context.common_context.messages_before_calls;
+                    let known_messages = context.messages.borrow().len();
+                    // places of calls in the body are recorded while the body is parsed
+                    let mut nested = CallPlaces {
+                        first: calls.borrow().len(),
+                        done: 0,
+                        moved: 0,
+                    };
                     context.macro_depth.set(context.macro_depth.get() + 1);
                     let segments = macro_expand(line, macro_name, ops, context, macroses)?;
                     // first segment continues segment of the caller
-                    pass0_internal(segments[0].clone(), context, macroses)?;
+                    pass0_internal(segments[0].clone(), context, macroses, &mut nested)?;
                     for segment in segments.iter().skip(1) {
                         context.add_segment(Segment {
                             address: segment.address,
                             t: segment.t,
                             items: vec![],
                         });
-                        pass0_internal(segment.clone(), context, macroses)?;
+                        pass0_internal(segment.clone(), context, macroses, &mut nested)?;
                     }
                     context.macro_depth.set(context.macro_depth.get() - 1);
+                    calls.borrow_mut().truncate(nested.first);
+                    // messages of this call go to its place
+                    let place = calls.borrow().get(places.first + places.done).cloned();
+                    places.done += 1;
+                    if let Some(place) = place {
+                        let mut messages = context.messages.borrow_mut();
+                        let known_messages = known_messages.min(messages.len());
+                        let issued = messages.split_off(known_messages);
+                        let place = (place + places.moved).min(messages.len());
+                        places.moved += issued.len();
+                        let rest = messages.split_off(place);
+                        messages.extend(issued);
+                        messages.extend(rest);
+                    }
                 }
                 _ => {
                     context.push_to_last((line.clone(), item.clone()));
